@@ -4,7 +4,7 @@ use crate::xtype::{Bind, XCompoundSpec, XFuncSpec, XType};
 use crate::xvalue::{ManagedXValue, NativeCallable, XFunction};
 use crate::{Declaration, Identifier};
 use std::borrow::Borrow;
-use std::collections::HashSet;
+use std::collections::BTreeSet;
 
 use derivative::Derivative;
 
@@ -106,7 +106,7 @@ pub struct StaticUserFunction<W, R, T> {
     pub(crate) output: Box<XExpr<W, R, T>>,
     pub(crate) id: usize,
     pub(crate) parent_id: usize,
-    pub(crate) forward_requirements: HashSet<ForwardRefRequirement>,
+    pub(crate) forward_requirements: BTreeSet<ForwardRefRequirement>,
 }
 
 impl<W: 'static, R: 'static, T: 'static> XStaticFunction<W, R, T> {
